@@ -246,14 +246,21 @@ CLAIMED = {
              "hash-pinned. Theorems over the regenerated model: every step of every state makes progress, so the "
              "tokenizer terminates from every configuration within 4|input|+8 state calls; emitCurrentToken's "
              "dict/update trick is the standard's first-duplicate-wins rule for every attribute list. The model is "
-             "tied to the code by exact agreement (parse errors included) from ANY of the 68 states; the property "
-             "itself is decided by S_tok, a per-character Gallina transcription of the WHATWG tokenizer run against "
-             "the implementation from the five start states. PARTIAL: the refinement theorem model = S_tok is not "
-             "proved; that equality is tested on every run, not proved.",
+             "tied to the code by exact agreement (parse errors included) from ANY of the 68 states. REFINEMENT "
+             "(Proofs/C02sim*.v): M_tok simulates into S_tok, a per-character Gallina transcription of the WHATWG "
+             "tokenizer -- one lemma per state method (70), character references via C14's longest-match and "
+             "numeric theorems -- so that with CDATA sections not allowed, for EVERY input, start state and "
+             "last-start-tag name both machines terminate with the same token stream (no premise left); with CDATA "
+             "allowed the same holds for every run that does not enter a CDATA section. The lemmas are re-checked "
+             "against the regenerated model on every run. S_tok is also run (extracted) against the implementation "
+             "from the five start states. PARTIAL: CDATA sections (one recorded finding there), the glue between "
+             "model and source (translator vocabulary, hand-modelled methods, input stream) and S_tok being a "
+             "transcription of the standard are tested/trusted, not proved.",
         design_ref="DESIGN.md 3 C02",
         note="one known finding (CDATA NUL); two defects repaired in /repo.",
-        technique="Coq proof (termination by a rank function over the regenerated model, association-list theorem) "
-                  "+ translation + differential correspondence + specification machine run in extracted OCaml"),
+        technique="Coq proof (forward simulation between two state machines, one lemma per state; termination by a "
+                  "rank function; association-list theorem) over a model regenerated by translation + differential "
+                  "correspondence + specification machine run in extracted OCaml"),
     "C08": dict(
         category="proof",
         text="Model Ser of the serializer's token loop (hand model, hash-pinned; quoting classes, tables and filter "
